@@ -119,3 +119,63 @@ func VerifH_C09_resume() {
 	sc2.Close()
 	vReach("resumed")
 }
+
+// VerifH_C09_resumeSkip: blocks emptied by a skip flag: a file whose blocks hold either
+// one node or one way, scanned with SkipWays. Stop after k delivered objects, resume at
+// the reported offset (again with SkipWays): exactly the remaining nodes follow; the
+// reported offset is the offset of the block of the last delivered object.
+func VerifH_C09_resumeSkip() {
+	procs := vRange("procs", 1, vParam("maxProcs", 2))
+	procs2 := vRange("procs2", 1, vParam("maxProcs", 2))
+	nb := vRange("blocks", 1, vParam("maxBlocks", 3))
+	c := &c09File{f: &mFile{hasHeader: true, header: simpleHeader()}}
+	for b := 0; b < nb; b++ {
+		var m *mBlock
+		if vRange("wayBlock", 0, 1) == 1 {
+			m = &mBlock{width: 2, exact: true}
+			m.genStrings(1)
+			m.ways = append(m.ways, m.genWay(-1, -1, 1, 1))
+		} else {
+			m = simpleBlock(1)
+			for _, o := range m.expected() {
+				c.want = append(c.want, o)
+				c.blockOf = append(c.blockOf, b)
+			}
+		}
+		c.f.blocks = append(c.f.blocks, m)
+	}
+	c.f.build()
+	if len(c.want) == 0 {
+		return
+	}
+	stop := vRange("stopAfter", 1, len(c.want))
+	sc := New(context.Background(), &vReader{data: c.f.data}, procs)
+	sc.SkipWays = true
+	for i := 0; i < stop; i++ {
+		if !sc.Scan() {
+			vAssert(false, "first-scan-ended-early")
+			return
+		}
+		vAssert(vSame(sc.Object(), c.want[i]), "object-in-order")
+	}
+	off := sc.FullyScannedBytes()
+	sc.Close()
+	b := c.blockOf[stop-1]
+	vAssert(off == c.blockOffset(b), "offset-of-block-of-last-object")
+	vReach("stopped")
+	sc2 := New(context.Background(), &vReader{data: c.f.data[off:]}, procs2)
+	sc2.SkipWays = true
+	j := stop - 1 // the block of the last delivered object is delivered again
+	for sc2.Scan() {
+		if j >= len(c.want) {
+			vAssert(false, "resume-too-many-objects")
+			break
+		}
+		vAssert(vSame(sc2.Object(), c.want[j]), "resume-object-in-order")
+		j++
+	}
+	vAssert(sc2.Err() == nil, "resume-no-error")
+	vAssert(j == len(c.want), "resume-yields-all-remaining")
+	sc2.Close()
+	vReach("resumed")
+}
